@@ -1955,13 +1955,13 @@ def run(ck):
 
     ck.log("stage: (b) real samplers, implementation only")
     # (b) real samplers, implementation only
-    nscripts, nconf, ndraws = (16, 40, 8000) if quick else (32, 80, 100000)
+    nscripts, nconf, ndraws = (16, 40, 8000) if quick else (24, 60, 30000)
     jobs = []
     for i in range(nscripts):
         r = ck.rng.fork("samp%d" % i)
         jobs.append(gen_samp_script(r, nconf, ndraws, counts, seed=ck.seed * 1000 + i + 1))
     with ThreadPoolExecutor(max_workers=12) as ex:
-        res = list(ex.map(lambda j: ck.run_bin(hbin, j[0]), jobs))
+        res = list(ex.map(lambda j: ck.run_bin(hbin, j[0], timeout=3000), jobs))
     for (lines, meta), pre in zip(jobs, res):
         run_samp(ck, hbin, lines, meta, pre=pre)
         ck.count("scripts:samp")
@@ -2033,7 +2033,7 @@ def run(ck):
         r = ck.rng.fork("alias%d" % i)
         jobs.append(gen_alias_script(r, nconf, ndraws, counts, seed=ck.seed * 1000 + 900 + i))
     with ThreadPoolExecutor(max_workers=12) as ex:
-        res = list(ex.map(lambda j: ck.run_bin(hbin, j[0]), jobs))
+        res = list(ex.map(lambda j: ck.run_bin(hbin, j[0], timeout=3000), jobs))
     for (lines, meta), pre in zip(jobs, res):
         run_alias(ck, hbin, lines, meta, pre=pre)
         ck.count("scripts:alias")
@@ -2048,7 +2048,7 @@ def run(ck):
         r = ck.rng.fork("rebound%d" % i)
         jobs.append(gen_rebound_script(r, nconf, ndraws, counts, seed=ck.seed * 1000 + 800 + i))
     with ThreadPoolExecutor(max_workers=12) as ex:
-        res = list(ex.map(lambda j: ck.run_bin(hbin, j[0]), jobs))
+        res = list(ex.map(lambda j: ck.run_bin(hbin, j[0], timeout=3000), jobs))
     for (lines, meta), pre in zip(jobs, res):
         run_rebound(ck, hbin, lines, meta, pre=pre)
         ck.count("scripts:rebound")
@@ -2063,7 +2063,7 @@ def run(ck):
         r = ck.rng.fork("vreal%d" % i)
         jobs.append(gen_vreal_script(r, nconf, iters, counts, seed=ck.seed * 1000 + 500 + i))
     with ThreadPoolExecutor(max_workers=12) as ex:
-        res = list(ex.map(lambda j: ck.run_bin(hbin, j[0]), jobs))
+        res = list(ex.map(lambda j: ck.run_bin(hbin, j[0], timeout=3000), jobs))
     for (lines, meta), pre in zip(jobs, res):
         run_vreal(ck, hbin, lines, meta, pre=pre)
         ck.count("scripts:vreal")
